@@ -7,15 +7,18 @@ import (
 	"fmt"
 	"net"
 	"os"
+	"runtime"
 	"strconv"
 	"strings"
 	"sync"
+	"sync/atomic"
 	"testing"
 	"testing/synctest"
 	"time"
 
 	"golang.org/x/net/http2"
 	"google.golang.org/grpc"
+	"google.golang.org/grpc/internal/verifhook"
 	"google.golang.org/grpc/internal/zzverif/vlib"
 	"google.golang.org/grpc/internal/zzverif/vlib/rawh2"
 	"google.golang.org/grpc/test/bufconn"
@@ -26,9 +29,27 @@ const big = 2147483646 // stands for 2^31-1 in specs and traces
 type ev = map[string]any
 
 type step struct {
-	A  string `json:"a"`
-	ID int    `json:"id"`
-	W  int    `json:"w"`
+	A    string `json:"a"`
+	ID   int    `json:"id"`
+	W    int    `json:"w"`
+	Race int    `json:"race"`
+}
+
+// gate holds the server's reader goroutine at the hook point "h2s.beforeRegister" (operateHeaders:
+// stream id already recorded in maxStreamID, stream not yet registered) until the driver opens it.
+type gate struct{ ch chan struct{} }
+
+var gatePtr atomic.Pointer[gate]
+
+func installHook() {
+	verifhook.Set(func(point string, _ any) {
+		if point != "h2s.beforeRegister" {
+			return
+		}
+		if g := gatePtr.Load(); g != nil {
+			<-g.ch
+		}
+	})
 }
 
 type beh struct {
@@ -45,6 +66,7 @@ type world struct {
 	pongWanted  bool
 	p           *rawh2.Peer
 	eof         chan struct{}
+	nGoAway     atomic.Int32
 }
 
 func (w *world) rel(id int) chan struct{} {
@@ -115,6 +137,7 @@ func (w *world) readLoop() {
 				id = big
 			}
 			w.tr.Emit(ev{"ev": "sga", "id": id})
+			w.nGoAway.Add(1)
 		case *http2.MetaHeadersFrame:
 			if f.StreamEnded() {
 				st, _ := strconv.Atoi(rawh2.Field(f, "grpc-status"))
@@ -154,7 +177,27 @@ func runBehaviour(tr *vlib.Trace, b *beh, sum map[string]int) {
 	go func() { defer wg.Done(); w.readLoop() }()
 	stopCalled := false
 	useTimer := false
+	var tStop time.Time
+	held := false
+	// release: give loopy every chance to write the final GOAWAY while the reader is held (on the
+	// unchanged tree it blocks on maxStreamMu instead - a mutex wait is not a durable block, so
+	// synctest.Wait cannot be used here; the yields only matter for sensitivity), then open the gate.
+	release := func() {
+		if !held {
+			return
+		}
+		for i := 0; i < 3000 && w.nGoAway.Load() < 2; i++ {
+			runtime.Gosched()
+		}
+		tr.Emit(ev{"ev": "note", "what": "release reader"})
+		if g := gatePtr.Swap(nil); g != nil {
+			close(g.ch)
+		}
+		held = false
+	}
+	defer release()
 	quiesce := func() {
+		release()
 		synctest.Wait()
 		tr.Emit(ev{"ev": "q", "blocked": 0, "tdone": 0})
 	}
@@ -167,6 +210,12 @@ func runBehaviour(tr *vlib.Trace, b *beh, sum map[string]int) {
 				return false
 			default:
 			}
+			if st.Race != 0 && !held {
+				// the reader will be held inside operateHeaders for this stream
+				gatePtr.Store(&gate{ch: make(chan struct{})})
+				held = true
+				tr.Emit(ev{"ev": "note", "what": "hold reader at h2s.beforeRegister"})
+			}
 			tr.Emit(ev{"ev": "csend", "id": st.ID})
 			p.WriteHeaders(uint32(st.ID), true, ":method", "POST", ":scheme", "http", ":path", "/v/m"+strconv.Itoa(st.ID),
 				":authority", "verif", "content-type", "application/grpc", "te", "trailers")
@@ -175,6 +224,7 @@ func runBehaviour(tr *vlib.Trace, b *beh, sum map[string]int) {
 				return false
 			}
 			stopCalled = true
+			tStop = time.Now()
 			tr.Emit(ev{"ev": "stop"})
 			wg.Add(1)
 			go func() {
@@ -194,8 +244,21 @@ func runBehaviour(tr *vlib.Trace, b *beh, sum map[string]int) {
 		case "timer": // do not ack: the server's 5 s fallback timer fires (virtual time)
 			useTimer = true
 			tr.Emit(ev{"ev": "timer"})
+			if held {
+				// wake up at exactly the instant the server's drain timer fires: with the reader held,
+				// virtual time cannot advance beyond it on the unchanged tree (loopy waits on a mutex)
+				if d := time.Until(tStop.Add(5 * time.Second)); stopCalled && d > 0 {
+					time.Sleep(d)
+					release()
+					return true
+				}
+				release()
+			}
 			time.Sleep(5*time.Second + time.Millisecond)
+		case "release":
+			release()
 		case "done":
+			release()
 			w.mu.Lock()
 			started := w.started[st.ID]
 			w.mu.Unlock()
@@ -279,6 +342,9 @@ func TestVerifC14Server(t *testing.T) {
 	if err != nil {
 		t.Fatal(err)
 	}
+	defer runtime.GOMAXPROCS(runtime.GOMAXPROCS(vlib.EnvInt("VERIF_PROCS", 1)))
+	installHook()
+	defer verifhook.Set(nil)
 	sum := map[string]int{}
 	for i, ln := range lines {
 		var b beh
